@@ -168,9 +168,10 @@ func c17StmtProgram(in *c17Inst, v *c17StmtVec, r *rand.Rand) (prog, doc []byte,
 
 // c17PrintStmtFamily runs MC_PrintStmt and replays every vector.
 func c17PrintStmtFamily(c *Ctx, pool *Pool, nonTerm *c17NonTerm) {
-	maxOuter, maxInner := 2, 2
+	// quick: every pair of arguments, inner prints of up to 2 arguments; thorough adds every triple (inner prints of 1 argument)
+	bounds := [][2]int{{2, 2}}
 	if c.Thorough() {
-		maxOuter, maxInner = 3, 1
+		bounds = append(bounds, [2]int{3, 1})
 	}
 	kinds := map[string]int64{}
 	n := 0
@@ -221,20 +222,22 @@ func c17PrintStmtFamily(c *Ctx, pool *Pool, nonTerm *c17NonTerm) {
 			c.Sample(map[string]any{"family": "print-stmt", "program": string(j.Prog), "input": string(j.Files[0].Data), "expected_tokens": toks, "expected_outcome": v.Status, "stdout": c17Clip(r.Stdout)})
 		}
 	})
-	c.TLC(TLCOpt{Module: "MC_PrintStmt", Workers: 8, Heap: "6g",
-		Cfg: cfgText("INIT Init", "NEXT Next", "CONSTANTS", fmt.Sprintf("MaxOuter = %d", maxOuter), fmt.Sprintf("MaxInner = %d", maxInner),
-			`Ctxs = {"rule", "loop", "fn"}`, "INVARIANT Laws", "INVARIANT Vec", "CHECK_DEADLOCK FALSE"),
-		OnVec: func(raw []byte) {
-			if c17Decided(c) {
-				return
-			}
-			var v c17StmtVec
-			VecDecode(raw, &v)
-			in := c17NewInst(c.Seed, raw)
-			prog, doc, _ := c17StmtProgram(in, &v, rand.New(rand.NewSource(c17Seed(c.Seed, raw, "stmt"))))
-			st.Submit(Job{Kind: "c17run", Prog: prog, Files: []FileIn{{Name: "in.json", Data: doc}}, Tag: string(raw)})
-		}})
+	for _, b := range bounds {
+		c.TLC(TLCOpt{Module: "MC_PrintStmt", Workers: 8, Heap: "6g",
+			Cfg: cfgText("INIT Init", "NEXT Next", "CONSTANTS", fmt.Sprintf("MaxOuter = %d", b[0]), fmt.Sprintf("MaxInner = %d", b[1]),
+				`Ctxs = {"rule", "loop", "fn"}`, "INVARIANT Laws", "INVARIANT Vec", "CHECK_DEADLOCK FALSE"),
+			OnVec: func(raw []byte) {
+				if c17Decided(c) {
+					return
+				}
+				var v c17StmtVec
+				VecDecode(raw, &v)
+				in := c17NewInst(c.Seed, raw)
+				prog, doc, _ := c17StmtProgram(in, &v, rand.New(rand.NewSource(c17Seed(c.Seed, raw, "stmt"))))
+				st.Submit(Job{Kind: "c17run", Prog: prog, Files: []FileIn{{Name: "in.json", Data: doc}}, Tag: string(raw)})
+			}})
+	}
 	st.Wait()
 	c.Set("print_stmt_argument_kinds", kinds)
-	c.Set("print_stmt_bounds", map[string]int{"MaxOuter": maxOuter, "MaxInner": maxInner})
+	c.Set("print_stmt_bounds_outer_inner", bounds)
 }
